@@ -384,7 +384,7 @@ impl Display for Expr {
             Expr::Reference(ident) => write!(formatter, "{ident}"),
             Expr::Symbol(ident) => write!(formatter, ":{ident}"),
             Expr::Function(ident, param) => write!(formatter, "{ident}({param})"),
-            Expr::Index(left, right) => write!(formatter, "({left}.{right})"),
+            Expr::Index(left, right) => write!(formatter, "({}.{right})", Operand(left)),
             Expr::If(check, true_case, false_case) => {
                 write!(formatter, "(if {check} then {true_case} else {false_case})")
             }
@@ -424,10 +424,18 @@ impl Display for Expr {
             Expr::LessThanEquals(left, right) => write!(formatter, "({left} <= {right})"),
             Expr::And(left, right) => write!(formatter, "({left} and {right})"),
             Expr::Or(left, right) => write!(formatter, "({left} or {right})"),
-            Expr::BitAnd(left, right) => write!(formatter, "{left} & {right}"),
-            Expr::BitOr(left, right) => write!(formatter, "{left} | {right}"),
-            Expr::BitXor(left, right) => write!(formatter, "{left} ^ {right}"),
-            Expr::Contains(left, right) => write!(formatter, "({left} contains {right})"),
+            Expr::BitAnd(left, right) => {
+                write!(formatter, "{} & {}", Operand(left), Operand(right))
+            }
+            Expr::BitOr(left, right) => {
+                write!(formatter, "{} | {}", Operand(left), Operand(right))
+            }
+            Expr::BitXor(left, right) => {
+                write!(formatter, "{} ^ {}", Operand(left), Operand(right))
+            }
+            Expr::Contains(left, right) => {
+                write!(formatter, "({} contains {})", Operand(left), Operand(right))
+            }
             Expr::UpperCase(param) => write!(formatter, "uppercase({param})"),
             Expr::LowerCase(param) => write!(formatter, "lowercase({param})"),
             Expr::Trim(param) => write!(formatter, "trim({param})"),
@@ -441,6 +449,26 @@ impl Display for Expr {
             Expr::Hour(param) => write!(formatter, "hour({param})"),
             Expr::Minute(param) => write!(formatter, "minute({param})"),
             Expr::Second(param) => write!(formatter, "second({param})"),
+        }
+    }
+}
+
+/// Displays a sub-expression in a position that binds tighter than the bitwise operators (an
+/// operand of `&`, `|`, `^` or `contains`, or the target of an index), adding the parentheses
+/// that are needed to get the same expression back when the text is parsed again
+struct Operand<'a>(&'a Expr);
+
+impl Display for Operand<'_> {
+    fn fmt(&self, formatter: &mut std::fmt::Formatter<'_>) -> std::fmt::Result {
+        match self.0 {
+            Expr::BitAnd(..)
+            | Expr::BitOr(..)
+            | Expr::BitXor(..)
+            | Expr::Not(_)
+            | Expr::Neg(_)
+            | Expr::Value(Value::Float(_))
+            | Expr::Value(Value::Decimal(_)) => write!(formatter, "({})", self.0),
+            expr => write!(formatter, "{expr}"),
         }
     }
 }
